@@ -49,7 +49,7 @@ func buildJobConfig(c *jcfg, id, src, src2, snk, stubURL string) *jobs.JobConfig
 			map[string]interface{}{"dataset": src2, "joins": []interface{}{
 				map[string]interface{}{"dataset": src, "predicate": PredNS + "p", "inverse": true}}}}}
 	case "SampleSource":
-		cfg.Source = map[string]interface{}{"Type": "SampleSource", "NumberOfEntities": 3.0}
+		cfg.Source = map[string]interface{}{"Type": "SampleSource", "NumberOfEntities": 6.0}
 	case "SlowSource":
 		cfg.Source = map[string]interface{}{"Type": "SlowSource", "Sleep": "1ms", "BatchSize": 2.0}
 	case "HttpDatasetSource":
@@ -63,6 +63,10 @@ func buildJobConfig(c *jcfg, id, src, src2, snk, stubURL string) *jobs.JobConfig
 		cfg.Transform = map[string]interface{}{"Type": "JavascriptTransform", "Code": b64(js), "Parallelism": 1.0}
 	case "js3":
 		cfg.Transform = map[string]interface{}{"Type": "JavascriptTransform", "Code": b64(js), "Parallelism": 3.0}
+	case "js4":
+		// pages of six entities over four workers: the last chunk is empty
+		cfg.BatchSize = 6
+		cfg.Transform = map[string]interface{}{"Type": "JavascriptTransform", "Code": b64(js), "Parallelism": 4.0}
 	case "http":
 		cfg.Transform = map[string]interface{}{"Type": "HttpTransform", "Url": stubURL + "/transform"}
 	case "none":
@@ -200,7 +204,7 @@ func TestJobConfigs(t *testing.T) {
 		}
 		for i, n := range []string{src, src2} {
 			var ents []*server.Entity
-			for k := 0; k < 3; k++ {
+			for k := 0; k < 6; k++ {
 				e := server.NewEntity(fmt.Sprintf("%s:e%d%d-%s", w.EntP, i, k, tag), 0)
 				e.Properties[w.PropP+":k"] = k
 				e.References[w.PredP+":p"] = fmt.Sprintf("%s:e%d%d-%s", w.EntP, 1-i, k, tag)
